@@ -626,11 +626,18 @@ impl Parser {
                 Ok(Value::Name(name_token))
             } else if self.match_token(Token::LBrace) {
                 // Lark template usage (not supported outside of parser anyways)
+                // the arguments are values again
+                ensure!(
+                    self.nesting_level + 1 < MAX_NESTING,
+                    "lark grammar too deeply nested"
+                );
+                self.nesting_level += 1;
                 let mut values = Vec::new();
                 values.push(self.parse_value()?);
                 while self.match_token(Token::Comma) {
                     values.push(self.parse_value()?);
                 }
+                self.nesting_level -= 1;
                 self.expect_token(Token::RBrace)?;
                 Ok(Value::TemplateUsage {
                     name: name_token,
@@ -786,6 +793,18 @@ impl Parser {
     }
 
     fn parse_param_cond(&mut self) -> Result<ParamCond> {
+        // and(), or(), not() nest
+        ensure!(
+            self.nesting_level + 1 < MAX_NESTING,
+            "lark grammar too deeply nested"
+        );
+        self.nesting_level += 1;
+        let cond = self.parse_param_cond_inner();
+        self.nesting_level -= 1;
+        cond
+    }
+
+    fn parse_param_cond_inner(&mut self) -> Result<ParamCond> {
         let n = self.expect_token_val(Token::Rule)?;
         let r = match n.as_str() {
             "true" => ParamCond::True,
